@@ -394,6 +394,16 @@ fn check_spec(spec: &Spec, key: &str, cx: &mut Cx) {
             }
         }
     }
+    if has_abs {
+        // observation only (not judged): the same message through fresh Layers
+        let m = msg.clone();
+        match guard(move || Library::from_proto(m, None).map(|l| l.to_proto().map(|_| ()))) {
+            Ok(Ok(Ok(()))) => cx.tag("observed:abstract-message-with-fresh-layers:ok"),
+            Ok(Ok(Err(_))) => cx.tag("observed:abstract-message-with-fresh-layers:reexport-err"),
+            Ok(Err(_)) => cx.tag("observed:abstract-message-with-fresh-layers:import-err"),
+            Err(_) => cx.tag("observed:abstract-message-with-fresh-layers:panic"),
+        }
+    }
     if fails.is_empty() {
         cx.outcome("ok");
         return;
